@@ -133,7 +133,14 @@ def r2_progress(ctx):
     prog = ctx.prog
     steps = elect.step_functions(prog)
     for f in steps:
-        fact = lambda a: True if a == "truthy(store_states)" else None  # noqa: E731
+        a1 = f.cls.is_subclass_of("RankingElection")
+
+        def fact(a, a1=a1):
+            if a == "truthy(store_states)":
+                return True
+            if a1 and re.fullmatch(r"truthy\([A-Za-z_]\w*\.ranking\)", a):
+                return True  # A1
+            return None
         exits = PathCounter(f.node, elect.is_states_append, fact).run()
         normal = [e for e in exits if e.kind in ("return", "fall-off")]
         # single-round classes: _is_finished is len(self.election_states) == K
